@@ -118,6 +118,7 @@ var (
 	flagMaxViol = flag.Int("maxviol", 3, "violations kept per label")
 	flagReplay  = flag.String("replay", "", "replay a counterexample file natively and print the verdict")
 	flagParam   = flag.String("param", "", "override tier parameters, e.g. N=3,L=2 (experiments only)")
+	flagCross   = flag.String("crosscheck", "auto", "re-decide recorded solver transcripts with z3 4.8.12 and cvc5: auto (thorough tier only) | on | off")
 )
 
 func fatal(code int, format string, args ...interface{}) {
@@ -170,6 +171,13 @@ func main() {
 		fatal(2, "INCONCLUSIVE load: %v", err)
 	}
 
+	cross := *flagCross == "on" || (*flagCross == "auto" && *flagTier == "thorough")
+	var crossDir string
+	if cross {
+		crossDir, _ = os.MkdirTemp("", "gobmc-smt-")
+		interp.SolverLogDir = crossDir
+		defer os.RemoveAll(crossDir)
+	}
 	var results []*harnessResult
 	for _, h := range hs {
 		r := runHarness(prog, pkgs, h, seed)
@@ -181,6 +189,11 @@ func main() {
 		results = append(results, r)
 	}
 
+	crossStats := map[string]int{}
+	var crossProblems []string
+	if cross {
+		crossStats, crossProblems = crossCheck(crossDir)
+	}
 	// native replay of counterexamples and encoder validation
 	exit := 0
 	known := loadKnown(chk.Property)
@@ -284,6 +297,10 @@ func main() {
 		}
 		exit = 1
 	}
+	for _, m := range crossProblems {
+		inconcl = append(inconcl, "cross-solver: "+m)
+	}
+	crossEvidence = crossStats
 	for _, m := range inconcl {
 		if len(m) > 1500 {
 			m = m[:1500] + "..."
@@ -1097,6 +1114,7 @@ func writeEvidence(chk *Check, results []*harnessResult, seed int, wall float64,
 			"outside_claim":                 chk.Outside,
 			"inconclusive":                  inconcl,
 			"known_findings_seen":           nknown,
+			"cross_solver":                  crossEvidence,
 		},
 		"assumptions": chk.Assumptions,
 		"wall_s":      wall,
@@ -1143,4 +1161,81 @@ func checkIface(prog *ssa.Program, e *IfaceExpect) string {
 		return fmt.Sprintf("the method set of %s.%s differs from what the harness enumerates (%s): extend the harness", e.Pkg, e.Type, strings.Join(diff, " "))
 	}
 	return ""
+}
+
+var crossEvidence map[string]int
+
+// crossCheck feeds the recorded transcripts (z3 5.1 answers included as comments) to
+// z3 4.8.12 and cvc5 and compares the sat/unsat answers query by query.
+func crossCheck(dir string) (map[string]int, []string) {
+	stats := map[string]int{"queries_compared_z3_4_8": 0, "queries_compared_cvc5": 0, "disagreements": 0, "other_solver_unknown": 0}
+	var problems []string
+	files, _ := filepath.Glob(filepath.Join(dir, "*.smt2"))
+	sort.Strings(files)
+	for _, f := range files {
+		if stats["queries_compared_cvc5"] >= 30000 {
+			break
+		}
+		data, err := os.ReadFile(f)
+		if err != nil || len(data) == 0 {
+			continue
+		}
+		// cut at the last (reset) so the script is well formed
+		text := string(data)
+		if i := strings.LastIndex(text, "(reset)"); i > 0 {
+			text = text[:i]
+		}
+		var script strings.Builder
+		var want []string
+		for _, line := range strings.Split(text, "\n") {
+			if strings.HasPrefix(line, "; -> ") {
+				a := strings.TrimPrefix(line, "; -> ")
+				if a == "sat" || a == "unsat" || a == "unknown" {
+					want = append(want, a)
+				}
+				continue
+			}
+			if strings.HasPrefix(line, "(set-option :timeout") || strings.HasPrefix(line, "(get-value") {
+				continue
+			}
+			script.WriteString(line)
+			script.WriteString("\n")
+		}
+		for _, sv := range []struct {
+			key  string
+			argv []string
+		}{{"queries_compared_z3_4_8", []string{"z3", "-in", "-t:20000"}}, {"queries_compared_cvc5", []string{"cvc5", "--incremental", "--tlimit-per=20000"}}} {
+			cmd := exec.Command(sv.argv[0], sv.argv[1:]...)
+			cmd.Stdin = strings.NewReader(script.String())
+			out, _ := cmd.Output()
+			var got []string
+			for _, l := range strings.Split(string(out), "\n") {
+				l = strings.TrimSpace(l)
+				if l == "sat" || l == "unsat" || l == "unknown" {
+					got = append(got, l)
+				} else if strings.HasPrefix(l, "(error") {
+					problems = append(problems, fmt.Sprintf("%s reported %s", sv.argv[0], l))
+				}
+			}
+			n := len(want)
+			if len(got) < n {
+				n = len(got)
+				problems = append(problems, fmt.Sprintf("%s answered %d of %d queries of %s", sv.argv[0], len(got), len(want), filepath.Base(f)))
+			}
+			for k := 0; k < n; k++ {
+				if got[k] == "unknown" || want[k] == "unknown" {
+					stats["other_solver_unknown"]++
+					continue
+				}
+				stats[sv.key]++
+				if got[k] != want[k] {
+					stats["disagreements"]++
+					if len(problems) < 5 {
+						problems = append(problems, fmt.Sprintf("%s says %s, z3 5.1 said %s on query %d of %s", sv.argv[0], got[k], want[k], k, filepath.Base(f)))
+					}
+				}
+			}
+		}
+	}
+	return stats, problems
 }
